@@ -261,51 +261,61 @@ def merge_sigs(tmpdir, setno):
 def check(prop, tier, seed, tlimit, jobs, keep=False):
     t0 = time.time()
     pinfo = PROPS[prop]
-    ename = pinfo['engine']
-    exe = build_engine(ename, jobs)
-    if exe is None:
-        return 2
+    enames = pinfo.get('engines') or [pinfo['engine']]
+    exes = []
+    for en in enames:
+        exe = build_engine(en, jobs)
+        if exe is None:
+            return 2
+        exes.append(exe)
+    ename = enames[0]
     build_s = time.time() - t0
     if tlimit is None:
         tlimit = pinfo.get(tier + '_time', 30 if tier == 'quick' else 600)
-    tmpdir = os.path.join(BUILD, 'run.%s.%d' % (prop, os.getpid()))
-    shutil.rmtree(tmpdir, ignore_errors=True)
-    os.makedirs(tmpdir)
     os.makedirs(os.path.join(ROOT, 'replays'), exist_ok=True)
     os.makedirs(os.path.join(ROOT, 'evidence'), exist_ok=True)
     known = load_known()
 
     t1 = time.time()
-    lines, dead = run_batch(exe, prop, seed, tlimit, jobs, tmpdir)
-    run_s = time.time() - t1
-
     tot = {}
     stats = {}
     viols = []
-    for ln in lines:
-        if ln.startswith('DONE '):
-            for kv in ln.split()[1:]:
-                k, v = kv.split('=')
-                if k in ('hashxor',):
-                    continue
-                tot[k] = tot.get(k, 0) + (float(v) if '.' in v else int(v))
-        elif ln.startswith('STAT '):
-            _, k, v = ln.split()
-            stats[k] = stats.get(k, 0) + int(v)
-        elif ln.startswith('VIOL '):
-            f = ln.split(' ', 5)
-            viols.append({'index': int(f[1]), 'seed': int(f[2]), 'cls': int(f[3]),
-                          'cls_name': f[4], 'msg': f[5] if len(f) > 5 else ''})
+    dead_all = []
+    tmpdirs = []
+    for exe in exes:
+        tmpdir = os.path.join(BUILD, 'run.%s.%s.%d' % (prop, os.path.basename(exe), os.getpid()))
+        shutil.rmtree(tmpdir, ignore_errors=True)
+        os.makedirs(tmpdir)
+        tmpdirs.append(tmpdir)
+        lines, dead = run_batch(exe, prop, seed, tlimit / len(exes), jobs, tmpdir)
+        for ln in lines:
+            if ln.startswith('DONE '):
+                for kv in ln.split()[1:]:
+                    k, v = kv.split('=')
+                    if k in ('hashxor',):
+                        continue
+                    tot[k] = tot.get(k, 0) + (float(v) if '.' in v else int(v))
+            elif ln.startswith('STAT '):
+                _, k, v = ln.split()
+                stats[k] = stats.get(k, 0) + int(v)
+            elif ln.startswith('VIOL '):
+                f = ln.split(' ', 5)
+                viols.append({'index': int(f[1]), 'seed': int(f[2]), 'cls': int(f[3]),
+                              'cls_name': f[4], 'msg': f[5] if len(f) > 5 else '', 'exe': exe})
+        for index, kind in dead:
+            dead_all.append((index, kind, exe))
+    run_s = time.time() - t1
+    dead = dead_all
 
     infra = []
     reported = []      # (kind, cls_name, msg, replay)
     # crashed / hung workers: reproduce in a fresh process, else infrastructure
-    for index, kind in dead:
+    for index, kind, dexe in dead:
         if index is None:
             infra.append(kind)
             continue
         viols.append({'index': index, 'seed': None, 'cls': 900 if kind == 'crash' else 901,
-                      'cls_name': kind, 'msg': 'worker died (%s) at index %d' % (kind, index)})
+                      'cls_name': kind, 'msg': 'worker died (%s) at index %d' % (kind, index), 'exe': dexe})
 
     # shrink + gate a few violations per class
     per_class = {}
@@ -317,7 +327,8 @@ def check(prop, tier, seed, tlimit, jobs, keep=False):
         if per_class[c] >= limit:
             continue
         per_class[c] += 1
-        rp = os.path.join(ROOT, 'replays', '%s-%d-%d.replay' % (prop, seed, v['index']))
+        exe = v['exe']
+        rp = os.path.join(ROOT, 'replays', '%s-%s-%d-%d.replay' % (prop, os.path.basename(exe), seed, v['index']))
         r = subprocess.run([exe, 'shrink', prop, str(seed), str(v['index']), rp],
                            capture_output=True, text=True)
         out = r.stdout.strip().splitlines()
@@ -350,13 +361,14 @@ def check(prop, tier, seed, tlimit, jobs, keep=False):
     # -------------------------------------------------------------- evidence
     samples = []
     try:
-        g = subprocess.run([exe, 'gen', prop, str(seed), '0', '3'], capture_output=True, text=True)
-        for ln in g.stdout.splitlines():
-            samples.append(json.loads(ln))
+        for sexe in exes:
+            g = subprocess.run([sexe, 'gen', prop, str(seed), '0', '3'], capture_output=True, text=True)
+            for ln in g.stdout.splitlines():
+                samples.append(json.loads(ln))
     except Exception as ex:    # samples are mandatory for the schema
         infra.append('cannot produce samples: %r' % ex)
-    distinct = merge_sigs(tmpdir, 0)
-    states = merge_sigs(tmpdir, 1)
+    distinct = sum(merge_sigs(t, 0) for t in tmpdirs)
+    states = sum(merge_sigs(t, 1) for t in tmpdirs)
     runs = int(tot.get('runs', 0))
     faults = {k: v for k, v in stats.items() if k.startswith('fault_')}
     probes = {k: v for k, v in stats.items()
@@ -381,8 +393,9 @@ def check(prop, tier, seed, tlimit, jobs, keep=False):
             'signature_set_overflow': stats.get('sig0_overflow', 0),
             'violations_by_class': {k[5:]: v for k, v in stats.items() if k.startswith('viol_')},
             'workers': jobs, 'worker_restarts': len(dead),
-            'real_code': ENGINES[ename].get('real', []),
-            'stubs': ENGINES[ename].get('stubs', []),
+            'engines': enames,
+            'real_code': sorted(set(sum((ENGINES[e].get('real', []) for e in enames), []))),
+            'stubs': sorted(set(sum((ENGINES[e].get('stubs', []) for e in enames), []))),
             'known_findings_matched': [r[2] for r in reported if r[0] == 'known'],
         },
         'assumptions': pinfo.get('assumptions', []),
@@ -397,7 +410,8 @@ def check(prop, tier, seed, tlimit, jobs, keep=False):
         % (prop, tier, runs, run_s, ev['coverage']['simulated_runs_per_hour'], distinct, n_viol,
            sum(1 for r in reported if r[0] == 'known'), len(infra)))
     if not keep:
-        shutil.rmtree(tmpdir, ignore_errors=True)
+        for t in tmpdirs:
+            shutil.rmtree(t, ignore_errors=True)
     for i in infra:
         log('INFRASTRUCTURE:', i)
     if n_viol:
@@ -444,7 +458,15 @@ def main():
     if tier not in ('quick', 'thorough'):
         tier = 'quick'
     if replay:
-        exe = build_engine(PROPS[prop]['engine'])
+        en = PROPS[prop].get('engine') or PROPS[prop]['engines'][0]
+        try:
+            for ln in open(replay):
+                if ln.startswith('engine '):
+                    en = ln.split()[1]
+                    break
+        except OSError:
+            pass
+        exe = build_engine(en)
         if exe is None:
             return 2
         r = subprocess.run([exe, 'replay', replay] + (['-v'] if verbose else []))
